@@ -304,8 +304,21 @@ def identity_and_round_trips(ctx: RunCtx) -> BoundedResult:
                     if back != v or back2 != v or r1 != r2:
                         res.failures.append({"what": f"{backend}/{ser}: value {str(v)[:40]!r} does not round-trip (or equal content gives different references)",
                                              "finding_key": f"{backend}:{ser}:roundtrip"})
-                # values whose TYPE matters: enum members alone and inside containers must come back as the same members (not as bare ints / strings)
+                # exceptions go through the state backend's own encoding around the same store: small and large enough to be externalised
                 from . import verif_tasks as vt
+                for exc in (vt.Other("boom", 1), vt.Other("m" * 3000, 2), ValueError("v" * 2000), KeyError("k")):
+                    n += 1
+                    try:
+                        sb = app.state_backend
+                        back = sb.deserialize_exception(sb.serialize_exception(exc))
+                    except Exception as e:      # noqa: BLE001
+                        res.failures.append({"what": f"{backend}/{ser}: {type(e).__name__} while reading back {type(exc).__name__} with arguments of {len(str(exc.args))} characters: {str(e)[:80]}",
+                                             "input": {"exception": type(exc).__name__, "size": len(str(exc.args))}, "finding_key": f"{ser}:exception-roundtrip"})
+                        continue
+                    if type(back) is not type(exc) or back.args != exc.args:
+                        res.failures.append({"what": f"{backend}/{ser}: {type(exc).__name__} with arguments of {len(str(exc.args))} characters comes back as {type(back).__name__}: {str(back)[:60]!r}",
+                                             "input": {"exception": type(exc).__name__, "size": len(str(exc.args))}, "finding_key": f"{ser}:exception-roundtrip"})
+                # values whose TYPE matters: enum members alone and inside containers must come back as the same members (not as bare ints / strings)
 
                 def deep_typed(x):
                     if isinstance(x, (list, tuple)):
@@ -415,6 +428,36 @@ def call_spellings(ctx: RunCtx) -> BoundedResult:
             if any(kw != kws[0] for kw in kws):
                 res.failures.append({"what": f"Arguments.from_call({func.__name__}): spellings {group} of one call give different arguments {kws}",
                                      "input": {"function": func.__name__, "spellings": [[list(a), k] for a, k in group]}, "finding_key": "from_call:spelling"})
+    # explicit falsy values are argument values, not "left out": binding must agree with Python's own (inspect.signature(..).bind + apply_defaults),
+    # and two calls that bind differently have different identities
+    import inspect
+    falsy = [None, 0, False, "", []]
+    with real_app("mem") as app0:
+        for func in (vt.sp_f, vt.sp_g, vt.sp_h):
+            params = list(inspect.signature(func).parameters.values())
+            first = "p" if func is vt.sp_h else 1
+            task0 = app0.task(func)
+            seen_ids = {}
+            for p in params[1:]:
+                for v in falsy:
+                    for how in ("keyword", "positional"):
+                        if how == "positional" and (p.kind is p.KEYWORD_ONLY or params.index(p) != 1):
+                            continue
+                        a, k = ((first, v), {}) if how == "positional" else ((first,), {p.name: v})
+                        n += 1
+                        ref = inspect.signature(func).bind(*a, **k)
+                        ref.apply_defaults()
+                        got = Arguments.from_call(func, *a, **k).kwargs
+                        if got != dict(ref.arguments):
+                            res.failures.append({"what": f"Arguments.from_call({func.__name__}, {a}, {k}) binds {got}, Python binds {dict(ref.arguments)} (an explicit {v!r} is a value, "
+                                                         "not a missing argument)", "input": {"function": func.__name__, "args": repr(a), "kwargs": repr(k)}, "finding_key": "from_call:explicit-falsy"})
+                        key = repr(sorted(dict(ref.arguments).items(), key=lambda kv: kv[0]))
+                        cid = Call(task0, Arguments.from_call(func, *a, **k)).call_id
+                        if key in seen_ids and seen_ids[key] != cid or any(kk != key and vv == cid for kk, vv in seen_ids.items()):
+                            res.failures.append({"what": f"{func.__name__}{a}{k}: call identity does not follow the bound arguments (same identity for different arguments, or two "
+                                                         "for the same)", "input": {"function": func.__name__, "args": repr(a), "kwargs": repr(k)}, "finding_key": "call-id:explicit-falsy"})
+                        seen_ids.setdefault(key, cid)
+    res.failures = res.failures[:8]
     for backend in ("mem", "sqlite"):
         with real_app(backend) as app:
             from pynenc.conf.config_task import ConcurrencyControlType
